@@ -394,6 +394,12 @@ func c14RunOps(s c14Scenario) (res c14Result) {
 		res.Mismatch = "template: " + err.Error()
 		return
 	}
+	// contexts fresh from New(), never written to: round i of every goroutine works on fresh[i] (the first Set on a
+	// context may meet the reads and New of the others)
+	fresh := make([]*plush.Context, s.Iters)
+	for i := range fresh {
+		fresh[i] = parent.New().(*plush.Context)
+	}
 	var wg sync.WaitGroup
 	var mu sync.Mutex
 	start := make(chan struct{})
@@ -420,14 +426,18 @@ func c14RunOps(s c14Scenario) (res c14Result) {
 					switch op {
 					case "set_shared":
 						parent.Set("k", i)
+						fresh[i].Set("k", i)
 					case "value_shared":
 						parent.Value("k")
 						parent.Has("k")
 						// names the context does not bind itself: the lookup goes past its own map
 						parent.Has("nosuch")
 						parent.Value("nosuch")
+						fresh[i].Value("k")
+						fresh[i].Has("k")
 					case "new_shared":
 						parent.New()
+						fresh[i].New()
 					case "set_own":
 						own.Set("k", i)
 					case "value_own":
